@@ -111,6 +111,14 @@ func (p *uPacketPacker) PackCoalescedPacket(onlyAck bool, maxSize protocol.ByteC
 		)
 		if initialPayload.length > 0 {
 			size += p.longHeaderPacketLength(initialHdr, initialPayload, v) + protocol.ByteCount(initialSealer.Overhead())
+			// [UQUIC] An Initial that carries frames is serialized by appendInitialPacket: the
+			// spec's frame builder and PacketSize decide its length, and the datagram is padded
+			// to UDPDatagramMinSize right behind it. A packet coalesced after it would be
+			// written behind that padding (lost to the receiver, or past the packet buffer),
+			// so such an Initial gets the datagram to itself.
+			if !onlyAck && len(initialPayload.frames) > 0 {
+				size = maxSize
+			}
 		}
 	}
 
